@@ -1023,11 +1023,13 @@ func (m *Manager) PoolTransaction(id types.TransactionID) (types.Transaction, bo
 	m.mu.Lock()
 	defer m.mu.Unlock()
 	m.revalidatePool()
+	// indices is shared with the v2 transactions, so the position is only
+	// meaningful if the transaction found there has the requested ID
 	i, ok := m.txpool.indices[id]
-	if !ok {
+	if !ok || i >= len(m.txpool.txns) || m.txpool.txns[i].ID() != id {
 		return types.Transaction{}, false
 	}
-	return m.txpool.txns[i], ok
+	return m.txpool.txns[i], true
 }
 
 // PoolTransactions returns the transactions currently in the txpool. Any prefix
@@ -1045,11 +1047,13 @@ func (m *Manager) V2PoolTransaction(id types.TransactionID) (types.V2Transaction
 	m.mu.Lock()
 	defer m.mu.Unlock()
 	m.revalidatePool()
+	// indices is shared with the v1 transactions, so the position is only
+	// meaningful if the transaction found there has the requested ID
 	i, ok := m.txpool.indices[id]
-	if !ok {
+	if !ok || i >= len(m.txpool.v2txns) || m.txpool.v2txns[i].ID() != id {
 		return types.V2Transaction{}, false
 	}
-	return m.txpool.v2txns[i].DeepCopy(), ok
+	return m.txpool.v2txns[i].DeepCopy(), true
 }
 
 // V2PoolTransactions returns the v2 transactions currently in the txpool. Any
